@@ -229,7 +229,7 @@ func TestC18(t *testing.T) {
 		c.Run().T.Cleanup(func() { os.RemoveAll(dir) })
 		return dir
 	}
-	for i := 0; i < r.Pick(24, 300); i++ {
+	for i := 0; i < r.Pick(48, 1000); i++ {
 		i := i
 		r.Case(fmt.Sprintf("tree/%d", i), map[string]any{"tree": i}, func(c *mon.Case) {
 			dir := tmpRoot(c)
